@@ -392,3 +392,24 @@ def check_C06(ctx):
 def check_C07(ctx):
     ctx.assumptions += _BUILDER_ASSUME
     builder_family(ctx, n_random=20000 if ctx.thorough else 1500, mc_sample=None if ctx.thorough else 1200, corrupt=_corrupt_cpb)
+
+
+def _corrupt_collateral(recs, rnd):
+    """negative control: every environment entry gains an asset nobody returns - the collateral equation breaks"""
+    n = 0
+    for r in recs:
+        if r.get("ev") == "Reset":
+            for u in r["utxo"]:
+                u["value"]["assets"].append({"p": [9] * 28, "n": [1], "q_n": [1]})
+                n += 1
+    return n > 0
+
+
+@prop("C19", "as C05 with collateral: collateral inputs (pure lovelace or asset-carrying) and one of the three helpers (explicit return "
+             "with assets equal / fewer / more / different than the inputs', explicit total, percentage helper), issued before or after "
+             "balancing; the collateral fields are a small state machine (unset / helper / raw / failed) in the trace spec; non-trivial = a "
+             "built transaction whose collateral fields were set by a helper (equation, min-ADA, percentage checked on the bytes) or after "
+             "a failed helper (neither field may be present)")
+def check_C19(ctx):
+    ctx.assumptions += _BUILDER_ASSUME + ["a helper that fails after collateral fields were already set by an earlier call is not judged (the statement speaks of a failed attempt leaving neither field set; only attempts from the unset state are checked)"]
+    builder_family(ctx, n_random=25000 if ctx.thorough else 2500, mc_sample=None if ctx.thorough else 300, corrupt=_corrupt_collateral)
